@@ -5,6 +5,7 @@
 #include "nodes/variable/variable.h"
 #include "nodes/variable/array.h"
 #include "nodes/functions/function.h"
+#include "nodes/loop/control.h"
 
 FunctionNode::FunctionNode(
     const Token &token,
@@ -140,7 +141,12 @@ std::unique_ptr<NodeResult> FunctionCallNode::evaluate(PSC::Context &ctx) {
     ctx.switchToken = &token;
     try {
         function->run(*functionCtx);
-    } catch (ReturnErrSignal&) {}
+    } catch (ReturnErrSignal&) {
+    } catch (BreakErrSignal &e) {
+        throw PSC::InvalidUsageError(e.token, *functionCtx, "'BREAK' statement");
+    } catch (ContinueErrSignal &e) {
+        throw PSC::InvalidUsageError(e.token, *functionCtx, "'CONTINUE' statement");
+    }
 
     if (!functionCtx->returnValue)
         throw PSC::RuntimeError(*(function->defToken), *functionCtx, "Missing RETURN statement");
